@@ -122,6 +122,10 @@ def gen_case(rng, tier, family="single"):
             break
     c = dict(family=family, n=n, t=t, d=d, X=pts[:n], Xs=pts[n:], y=[rng.randint(-16, 16) / 8.0 for _ in range(n)],
              kernel=rng.choice(KERNELS), mean=rng.choice(MEANS), lik=rng.choice(LIKS), hseed=rng.randint(0, 10 ** 9))
+    if family == "single":
+        # the property is about the CURRENT training data: some cases first predict on other data and then
+        # replace targets (or inputs and targets) with set_train_data before the compared prediction
+        c["prelude"] = rng.choice([None, None, "targets", "inputs+targets"])
     if family == "multitask":
         c.update(tasks=2, rank=rng.choice([0, 1]), noise_rank=rng.choice([0, 1]), kernel=rng.choice(["rbf", "matern25", "rq"]),
                  y=[[rng.randint(-16, 16) / 8.0 for _ in range(2)] for _ in range(n)])
@@ -259,6 +263,18 @@ def impl_outputs(case, flags):
     cms = [FLAGS[f]() for f in flags]
     fam = case.get("family", "single")
     with torch.no_grad(), _multi(*cms):
+        if case.get("prelude"):
+            # start from different data, fill the prediction caches, then install the case's data
+            y0 = y.flip(0) + 0.5
+            if case["prelude"] == "targets":
+                model.set_train_data(targets=y0, strict=False)
+            else:
+                model.set_train_data(inputs=X + 0.375, targets=y0, strict=False)
+            model(Xs)
+            if case["prelude"] == "targets":
+                model.set_train_data(targets=y, strict=False)
+            else:
+                model.set_train_data(inputs=X, targets=y, strict=False)
         post = model(Xs)
         m = post.loc; cov = post.covariance_matrix
         var = post.variance
@@ -290,6 +306,7 @@ def coq_case(n, t, KJ, mu, S, y):
 
 ITERATIVE = {"cg", "fast_pred_var"}
 COND_MAX = 300.0  # iterative paths (CG / Lanczos) are only compared on well-conditioned Kxx+S
+MIN_EIG_GAP = 1e-2  # ... whose eigenvalues are separated (relative gap), else Lanczos cannot reach full rank
 
 
 def tol(flags):
@@ -316,6 +333,8 @@ def compare(out, case, flags, res, mm, mc, b=0):
     a = tol(flags)
     desc = dict(case=case, flags=sorted(flags), batch_element=b)
     path = "+".join(sorted(flags)) or "default"
+    if case.get("prelude"):
+        path = "after-set_train_data(%s):%s" % (case["prelude"], path)
     fam = case.get("family", "single")
     if fam != "single":
         path = fam + (":" + case["pattern"] if fam == "batch" else "") + ":" + path
@@ -378,10 +397,10 @@ def run(out, ctx):
     res = C.coq_run_cases("C01", IMPORTS, RUN_DEF, coq_cases, shard=6)
     out.rule = ("random exact-GP problems: single-output (n<=%d, t<=3, d<=3, 10 kernels x 3 means x 3 likelihoods), batched "
                 "(5 parameter/data broadcast patterns, every batch element compared with its own closed form) and "
-                "Kronecker multitask (2 tasks, task-kernel rank 0/1, task-noise rank 0/1); each under the default settings, "
+                "Kronecker multitask (2 tasks, task-kernel rank 0/1, task-noise rank 0/1); half of the single-output cases first predict on other data and then install the case's data with set_train_data (targets only / inputs and targets); each under the default settings, "
                 "every single non-default flag and random flag subsets; non-trivial = n_train>=2 and posterior variance "
                 "differs from the prior by >1e-6" % (5 if tier == "quick" else 7))
-    out.extra["tolerances"] = {"dense/cholesky": 1e-8, "cg or lanczos(full rank), cond<=%g" % COND_MAX: 1e-5,
+    out.extra["tolerances"] = {"dense/cholesky": 1e-8, "cg or lanczos(full rank), cond<=%g, relative eigenvalue gap>=%g" % (COND_MAX, MIN_EIG_GAP): 1e-5,
                                 "marginal noise": 1e-9}
     model_by_case = {}
     for (ci, b), r in zip(owner, res):
@@ -393,7 +412,14 @@ def run(out, ctx):
             continue
         mm = rd.qs(t); mc = rd.qmat(t, t)
         A = torch.tensor([[KJ[i][j] + float(S[i][j]) for j in range(ntr)] for i in range(ntr)])
-        model_by_case.setdefault(ci, {})[b] = (mm, mc, float(torch.linalg.cond(A)),
+        ev = torch.linalg.eigvalsh((A + A.T) / 2)
+        gap = float(((ev[1:] - ev[:-1]).min() / ev.abs().max())) if ntr >= 2 else 1.0
+        # Lanczos/CG reach full rank in n steps only when the spectrum of Kxx+S is separated: a (nearly) repeated
+        # eigenvalue makes the Krylov space smaller than n, the root is then low rank and the path is not an exact
+        # algorithm (the property compares iterative paths only "at full rank where they are exact algorithms").
+        # Encoded as an infinite condition number so that the iterative flags are skipped for this case.
+        cnd = float(torch.linalg.cond(A)) if gap >= MIN_EIG_GAP else float("inf")
+        model_by_case.setdefault(ci, {})[b] = (mm, mc, cnd,
                                                ntr >= 2 and any(abs(float(mc[i][i]) - KJ[ntr + i][ntr + i]) > 1e-6 for i in range(t)))
     for ci, case in enumerate(cases):
         if ci not in model_by_case:
@@ -405,16 +431,18 @@ def run(out, ctx):
             combos.append(tuple(f for f in flagnames if rng.random() < 0.4))
         for flags in combos:
             if cond > COND_MAX and ITERATIVE & set(flags):
-                out.count("rejected: cond(Kxx+S)>%g on an iterative path" % COND_MAX)
+                out.count("rejected: cond(Kxx+S)>%g or relative eigenvalue gap<%g on an iterative path" % (COND_MAX, MIN_EIG_GAP))
                 continue
             fam = case["family"]
             out.case(dict(family=fam, n=case["n"], t=case["t"], d=case["d"], kernel=case["kernel"], mean=case["mean"],
-                          lik=case["lik"], pattern=case.get("pattern"), flags=sorted(flags)),
+                          lik=case["lik"], pattern=case.get("pattern"), prelude=case.get("prelude"), flags=sorted(flags)),
                      any(v[3] for v in els.values()), label="flags=" + ("+".join(sorted(flags)) or "default"))
             out.count("family=" + fam); out.count("kernel=" + case["kernel"]); out.count("lik=" + case["lik"])
             out.count("n=%d" % case["n"])
             if fam == "batch":
                 out.count("pattern=" + case["pattern"])
+            if case.get("prelude"):
+                out.count("prelude=" + case["prelude"])
             try:
                 got = impl_outputs(case, flags)
             except Exception as e:  # the implementation rejects a configuration the property covers
